@@ -190,84 +190,115 @@ def entries (N : Nat) (c : Csr K) : Except Err (List (Nat × Nat)) :=
     let hi ← rd c.rowP (n + 1) "row_P[n+1]"
     pure (acc ++ (List.range' lo (hi - lo)).map (fun i => (n, i)))) []
 
-/-- first pass: `row_counts` -/
-def rowCounts (N : Nat) (c : Csr K) : Except Err (Array Nat) := do
-  let es ← entries N c
-  es.foldlM (fun (rc : Array Nat) (e : Nat × Nat) => do
-    let (n, i) := e
-    let col ← rd c.colP i "col_P[i]"
-    let present ← presentIn c col n
-    let rn ← rd rc n "row_counts[n]"
-    let rc ← wr rc n (rn + 1) "row_counts[n]"
-    if present then pure rc
-    else do
-      let rcol ← rd rc col "row_counts[col_P[i]]"
-      wr rc col (rcol + 1) "row_counts[col_P[i]]") (Array.replicate N 0)
+/-! #### `symmetrizeMatrix`
+Memory model: a `malloc`/`calloc`ed result array is a `Mem` — its allocated size and a partial content function
+(`none` = never written).  Every write is checked against the size (`Err.oob`), every cell read by the final
+`sym_val_P[i] /= 2.0` loop must have been written (`Err.uninit`).  The input arrays are validated once
+(`Csr.wellFormed`: the shape `computeGaussianPerplexity` produces — `row_P` of length `N+1`, starting at 0, non-decreasing,
+ending at the length of `col_P`/`val_P`, columns below `N`); on a malformed input the C++ reads out of bounds, which is the
+single explicit error `oob "malformed CSR input"`; on a well-formed one every read below is in bounds, so reads are plain
+`getD`.  `sym_col_P` and `sym_val_P` are always written at the same index in adjacent statements and are modelled as one
+array of pairs. -/
 
-structure SymState (K : Type) where
-  symCol : Array (Option Nat)     -- `malloc`: cells start unwritten
-  symVal : Array (Option K)
-  offset : Array Nat
+structure Mem (α : Type) where
+  size : Nat
+  get : Nat → Option α
 
-variable [Add K] [Div K] [NatCast K]
+def Mem.alloc {α : Type} (n : Nat) : Mem α := ⟨n, fun _ => none⟩
 
-/-- the two writes `sym_col_P[sym_row_P[a] + offset[a]] = b; sym_val_P[…] = v` -/
-def put (symRow : Array Nat) (s : SymState K) (a b : Nat) (v : K) : Except Err (SymState K) := do
-  let base ← rd symRow a "sym_row_P[·]"
-  let off ← rd s.offset a "offset[·]"
-  let sc ← wr s.symCol (base + off) (some b) "sym_col_P[sym_row_P[·]+offset[·]]"
-  let sv ← wr s.symVal (base + off) (some v) "sym_val_P[sym_row_P[·]+offset[·]]"
-  pure { s with symCol := sc, symVal := sv }
+def Mem.write {α : Type} (m : Mem α) (i : Nat) (v : α) (what : String) : Except Err (Mem α) :=
+  if i < m.size then .ok ⟨m.size, fun j => if j = i then some v else m.get j⟩ else .error (.oob what)
 
-/-- body of the second pass for element `(n, col_P[i])` -/
-def fillStep (c : Csr K) (symRow : Array Nat) (s : SymState K) (e : Nat × Nat) : Except Err (SymState K) := do
-  let (n, i) := e
-  let col ← rd c.colP i "col_P[i]"
-  let vi ← rd c.valP i "val_P[i]"
-  let lo ← rd c.rowP col "row_P[col_P[i]]"
-  let hi ← rd c.rowP (col + 1) "row_P[col_P[i]+1]"
-  -- for m in row col_P[i]: if (col_P[m] == n) { present = true; if (n <= col_P[i]) { four writes } }
-  let (s, present) ← (List.range' lo (hi - lo)).foldlM (fun (sp : SymState K × Bool) m => do
-    let cm ← rd c.colP m "col_P[m]"
-    if cm == n then
-      if n ≤ col then do
-        let vm ← rd c.valP m "val_P[m]"
-        let s1 ← put symRow sp.1 n col (vi + vm)
-        let s2 ← put symRow s1 col n (vi + vm)
-        pure (s2, true)
-      else pure (sp.1, true)
-    else pure sp) (s, false)
-  -- if (!present) { four writes }
-  let s ← if present then pure s else do
-    let s1 ← put symRow s n col vi
-    put symRow s1 col n vi
-  -- update offsets
-  if !present || (present && n ≤ col) then do
-    let on ← rd s.offset n "offset[n]"
-    let off ← wr s.offset n (on + 1) "offset[n]"
-    let off ← if col ≠ n then do
-        let oc ← rd off col "offset[col_P[i]]"
-        wr off col (oc + 1) "offset[col_P[i]]"
-      else pure off
-    pure { s with offset := off }
-  else pure s
+def Csr.R (c : Csr K) (i : Nat) : Nat := c.rowP.getD i 0
+def Csr.C (c : Csr K) (i : Nat) : Nat := c.colP.getD i 0
+def Csr.V [Zero K] (c : Csr K) (i : Nat) : K := c.valP.getD i 0
+
+def Csr.wellFormed (N : Nat) (c : Csr K) : Bool :=
+  c.rowP.size == N + 1 && c.R 0 == 0 && (List.range N).all (fun n => c.R n ≤ c.R (n + 1)) &&
+  c.R N == c.colP.size && c.colP.size == c.valP.size && (List.range c.colP.size).all (fun i => c.C i < N)
+
+/-- all `(n, i)` with `row_P[n] ≤ i < row_P[n+1]`, in loop order -/
+def csrEntries (N : Nat) (c : Csr K) : List (Nat × Nat) :=
+  (List.range N).flatMap fun n => (List.range' (c.R n) (c.R (n + 1) - c.R n)).map fun i => (n, i)
+
+/-- `for (m = row_P[col]; m < row_P[col+1]; m++) if (col_P[m] == n) present = true;` -/
+def csrPresent (c : Csr K) (col n : Nat) : Bool :=
+  (List.range' (c.R col) (c.R (col + 1) - c.R col)).any fun m => c.C m == n
+
+/-- `f[a]++` -/
+def inc (f : Nat → Nat) (a : Nat) : Nat → Nat := fun j => if j = a then f a + 1 else f j
+
+/-- first pass, one element: `if (present) row_counts[n]++; else { row_counts[n]++; row_counts[col_P[i]]++; }` -/
+def countStep (c : Csr K) (rc : Nat → Nat) (e : Nat × Nat) : Nat → Nat :=
+  if csrPresent c (c.C e.2) e.1 then inc rc e.1 else inc (inc rc e.1) (c.C e.2)
+
+/-- `sym_row_P[0] = 0; sym_row_P[n+1] = sym_row_P[n] + row_counts[n]` -/
+def symRowOf (rc : Nat → Nat) : Nat → Nat
+  | 0 => 0
+  | n + 1 => symRowOf rc n + rc n
+
+structure SymSt (K : Type) where
+  mem : Mem (Nat × K)       -- (sym_col_P[p], sym_val_P[p])
+  off : Nat → Nat           -- offset[]
+
+variable [Add K] [Div K] [NatCast K] [Zero K]
+
+/-- `sym_col_P[sym_row_P[a] + offset[a]] = b; sym_val_P[sym_row_P[a] + offset[a]] = v` -/
+def put (S : Nat → Nat) (st : SymSt K) (a b : Nat) (v : K) : Except Err (SymSt K) :=
+  match st.mem.write (S a + st.off a) (b, v) "sym_*_P[sym_row_P[·]+offset[·]]" with
+  | .error e => .error e
+  | .ok m => .ok { st with mem := m }
+
+/-- the body of the `m` loop of the second pass for the element `(n, col_P[i])` -/
+def mStep (c : Csr K) (S : Nat → Nat) (n i : Nat) (sp : SymSt K × Bool) (m : Nat) : Except Err (SymSt K × Bool) :=
+  if c.C m = n then
+    if n ≤ c.C i then
+      match put S sp.1 n (c.C i) (c.V i + c.V m) with
+      | .error e => .error e
+      | .ok s1 =>
+        match put S s1 (c.C i) n (c.V i + c.V m) with
+        | .error e => .error e
+        | .ok s2 => .ok (s2, true)
+    else .ok (sp.1, true)
+  else .ok sp
+
+/-- second pass, one element `(n, col_P[i])` -/
+def fillStep (c : Csr K) (S : Nat → Nat) (st : SymSt K) (e : Nat × Nat) : Except Err (SymSt K) :=
+  let n := e.1
+  let i := e.2
+  let col := c.C i
+  match (List.range' (c.R col) (c.R (col + 1) - c.R col)).foldlM (mStep c S n i) (st, false) with
+  | .error err => .error err
+  | .ok (st1, present) =>
+    -- if (!present) { four writes }
+    match (if present then Except.ok st1 else
+            match put S st1 n col (c.V i) with
+            | .error err => .error err
+            | .ok s1 => put S s1 col n (c.V i)) with
+    | .error err => .error err
+    | .ok st2 =>
+      -- if (!present || (present && n <= col_P[i])) { offset[n]++; if (col_P[i] != n) offset[col_P[i]]++; }
+      if !present || decide (n ≤ col) then
+        .ok { st2 with off := if col ≠ n then inc (inc st2.off n) col else inc st2.off n }
+      else .ok st2
 
 /-- `symmetrizeMatrix(&row_P, &col_P, &val_P, N)` -/
-def symmetrizeCsr (N : Nat) (c : Csr K) : Except Err (Csr K) := do
-  let rc ← rowCounts N c
-  let noElem := rc.foldl (· + ·) 0
-  -- sym_row_P[0] = 0; sym_row_P[n+1] = sym_row_P[n] + row_counts[n]
-  let symRow : Array Nat := rc.foldl (fun (a : Array Nat) k => a.push (a.back! + k)) #[0]
-  let es ← entries N c
-  let s ← es.foldlM (fillStep c symRow) (⟨Array.replicate noElem none, Array.replicate noElem none, Array.replicate N 0⟩ : SymState K)
-  -- sym_val_P[i] /= 2.0  (every cell is read: an unwritten one is an uninitialised read)
-  let vals ← s.symVal.toList.mapM (fun o => match o with
-    | some v => Except.ok (v / ((Gen.TsneOps.symDivisor : Nat) : K))
-    | none => Except.error (Err.uninit "sym_val_P"))
-  let cols ← s.symCol.toList.mapM (fun o => match o with
-    | some v => Except.ok v
-    | none => Except.error (Err.uninit "sym_col_P"))
-  pure ⟨symRow, cols.toArray, vals.toArray⟩
+def symmetrizeCsr (N : Nat) (c : Csr K) : Except Err (Csr K) :=
+  if c.wellFormed N = false then .error (.oob "malformed CSR input") else
+  let es := csrEntries N c
+  let rc := es.foldl (countStep c) (fun _ => 0)
+  let S := symRowOf rc
+  let noElem := S N                       -- no_elem = Σ row_counts[n]
+  match es.foldlM (fillStep c S) (⟨Mem.alloc noElem, fun _ => 0⟩ : SymSt K) with
+  | .error e => .error e
+  | .ok st =>
+    -- sym_val_P[i] /= 2.0  (every cell is read: an unwritten one is an uninitialised read)
+    match (List.range noElem).mapM (fun p => match st.mem.get p with
+        | some cv => Except.ok (cv.1, cv.2 / ((Gen.TsneOps.symDivisor : Nat) : K))
+        | none => Except.error (Err.uninit "sym_val_P")) with
+    | .error e => .error e
+    | .ok cells =>
+      .ok ⟨((List.range (N + 1)).map S).toArray, (cells.map (·.1)).toArray, (cells.map (·.2)).toArray⟩
 
 /-- the CSR matrix as a dense function (entries of a row with the same column add up) -/
 def Csr.entry [Zero K] (c : Csr K) (n m : Nat) : K :=
